@@ -107,7 +107,7 @@ def date_plane(tier):
                 ev = lambda e: m.eval(e, model_completion=True).as_long()  # noqa: E731
                 w = {"mtime": [ev(x) for x in M.f], "server_now": [ev(x) for x in S.f], "client_now": [ev(x) for x in S.f]}
                 text, _ = K.replay_witness(w)
-                age_ok = (":" in text) == (rendered.fmt != "%b %e %H:%M")  # the real function picks the other form here, too
+                age_ok = (":" in text) == (rendered.fmt == "%b %e %H:%M")  # the real function picks the other form here, too
                 if not age_ok:
                     return {"error": f"form-choice witness does not reproduce natively: {w} -> {text!r}", "evaluations": len(pl.results)}
                 d = os.path.join(ROOT, "replays", "C07")
@@ -116,7 +116,7 @@ def date_plane(tier):
                 with open(path, "w") as f:
                     f.write("#!/verif/.venv/bin/python\n# z3 witness replayed on the real build_list_mtime (TZ=UTC). Exit 1 = the wrong form is chosen.\n"
                             f"import sys\nsys.path.insert(0, {ROOT!r})\nfrom vlib.hlib import c07k\nw = {w!r}\ntext, got = c07k.replay_witness(w)\nprint(text)\n"
-                            f"sys.exit(1 if (':' in text) == {rendered.fmt != '%b %e %H:%M'!r} else 0)\n")
+                            f"sys.exit(1 if (':' in text) == {rendered.fmt == '%b %e %H:%M'!r} else 0)\n")
                 violations.append({"key": "date:form-choice", "replay": path, "call": json.dumps(w), "what": f"(iii) mtime {w['mtime']} at {w['server_now']} is listed as {text!r}: wrong form for its age"})
             elif r != z3.unsat:
                 unknown += 1
